@@ -527,3 +527,110 @@ def term_cases(cases):
             r["error"] = info["error"]
         out.append(r)
     return {"results": out}
+
+
+# ------------------------------------------------------------------ C18 term equality / hashing
+def _build_obj(spec):
+    from problog.logic import Term, Constant, Var, Not
+    from problog.parser import PrologParser
+    from problog.program import ExtendedPrologFactory
+    k = spec[0]
+    if k == "Term":
+        return Term(spec[1], *[_build_obj(a) for a in (spec[2] if len(spec) > 2 else [])])
+    if k == "Constant":
+        return Constant(spec[1])
+    if k == "Var":
+        return Var(spec[1])
+    if k == "Not":
+        return Not(spec[1], _build_obj(spec[2]))
+    if k == "parse":
+        return Term.from_string(spec[1])
+    if k == "neg":
+        return -_build_obj(spec[1])
+    if k == "list":
+        from problog.logic import list2term
+        return list2term([_build_obj(a) for a in spec[1]])
+    raise ValueError(spec)
+
+
+def eq_matrix(groups):
+    """groups: list of {'id', 'specs': [spec...]} -> eq matrix, hash classes, unification matrix per group"""
+    from problog.engine_unify import unify_value, UnifyError
+    from problog.logic import is_ground
+    out = []
+    for g in groups:
+        objs = [_build_obj(s) for s in g["specs"]]
+        n = len(objs)
+        eq = [[1 if (objs[i] == objs[j]) else 0 for j in range(n)] for i in range(n)]
+        hs = []
+        for o in objs:
+            hs.append(hash(o))
+        ids = {}
+        hcls = [ids.setdefault(h, len(ids) + 1) for h in hs]
+        un = []
+        for i in range(n):
+            row = []
+            for j in range(n):
+                try:
+                    unify_value(objs[i], objs[j], {})
+                    row.append(1)
+                except UnifyError:
+                    row.append(0)
+                except Exception:
+                    row.append(2)
+            un.append(row)
+        gr = [1 if is_ground(o) else 0 for o in objs]
+        out.append({"id": g["id"], "eq": eq, "hash": hcls, "unif": un, "ground": gr,
+                    "repr": [repr(o) for o in objs], "types": [type(o).__name__ for o in objs]})
+    return {"results": out}
+
+
+# ------------------------------------------------------------------ C16 arithmetic
+def arith_cases(cases):
+    from problog.program import PrologString
+    from problog.logic import Term, Constant
+    out = []
+    for c in cases:
+        r = {"id": c["id"], "kind": c["kind"]}
+        try:
+            from problog.engine import DefaultEngine
+            eng = DefaultEngine()
+            if c["kind"] == "is":
+                db = eng.prepare(PrologString("r(X) :- X is %s.\n" % c["text"]))
+                code, res = _q(db, eng, Term("r", None))
+                o = {"ok": code, "k": "i", "q": 0, "rep": 1}
+                if code == 1:
+                    v = res[0][0]
+                    val = v.functor if isinstance(v, Constant) else None
+                    if isinstance(val, bool) or not isinstance(val, (int, float)):
+                        o["rep"] = 0
+                        o["raw"] = repr(v)
+                    else:
+                        o["k"] = "i" if isinstance(val, int) else "f"
+                        q = val * 4
+                        if q != int(q) or abs(q) > 2 ** 30:
+                            o["rep"] = 0
+                        else:
+                            o["q"] = int(q)
+                        o["raw"] = repr(val)
+                elif code == 2:
+                    o["raw"] = res
+                r["out"] = o
+            elif c["kind"] == "cmp":
+                db = eng.prepare(PrologString("t :- %s %s %s.\n" % (c["xt"], c["op"], c["yt"])))
+                code, res = _q(db, eng, Term("t"))
+                r["out"] = code
+            elif c["kind"] == "between":
+                x = "X" if not c["xbound"] else str(c["x"])
+                db = eng.prepare(PrologString("r(X) :- X = %s, between(%d, %d, X).\n" % (x, c["l"], c["h"])))
+                code, res = _q(db, eng, Term("r", None))
+                r["ok"] = code
+                r["sols"] = [int(a[0]) for a in res] if code == 1 else []
+        except Exception as e:
+            from .pl import err_info
+            info = err_info(e)
+            r["crash"] = "%s: %s" % (info["error"], info["msg"])
+            r["site"] = info["site"]
+            r["error"] = info["error"]
+        out.append(r)
+    return {"results": out}
